@@ -121,6 +121,10 @@ def build():
 
     # ------------------------------------------------------------------ _get_outputs
     def start_summary(interp, recv, args, kwargs):
+        it = args[0]
+        if isinstance(it, Opaque) and it.tag == "limited":
+            interp.ctx.check("%s/call._start.pre.calling-thread-slice-is-not-empty-by-construction" % interp.contract.qualname,
+                             ops.as_int_term(it.attrs["n"]) >= 1, detail="precondition of Parallel._start (part 2): limited_to(iterator) >= 1, else no task would ever be dispatched")
         interp.ctx.events.append(("_start",))
         k = interp.ctx.choose(2, "_start-raises")
         if k == 1:
@@ -228,8 +232,8 @@ def build():
     Q = "is_empty_deque(self._jobs) and is_empty_set(self._jobs_set) and self._running is False"
     go = Contract(
         PAR, "Parallel._get_outputs", props=["C04", "C16", "C01"], generator=True, ghost=dict(NY=INT, JHI=INT), setup=go_setup,
-        params=dict(self=parallel(), iterator=OpaqueOf("limited"), pre_dispatch=OneOf("all", INT)),
-        requires=["jobs_tile(self._jobs, NY, JHI)"],
+        params=dict(self=parallel(), iterator=lambda i: Opaque("limited", None, n=INT.fresh(i.ctx, "limit")), pre_dispatch=OneOf("all", INT)),
+        requires=["jobs_tile(self._jobs, NY, JHI)", "limited_to(iterator) >= 1"],
         calls={"self._start": lambda i, a, k: start_summary(i, None, a, k), "self._retrieve": lambda i, a, k: retrieve_summary(i, None, a, k)},
         ensures={"quiescent": Q},
         ensures_body={"torn_down_once_or_detached": "n_events('_terminate_and_reset') + n_events('detached-exit-thread') == 1",
@@ -271,6 +275,10 @@ def build():
 
     def gen_obj(tag):
         def h(interp, recv, args, kwargs):
+            if tag == "_get_outputs" and isinstance(args[0], Opaque) and args[0].tag == "limited":
+                interp.ctx.check("%s/call._get_outputs.pre.pre_dispatch-amount-at-least-one" % interp.contract.qualname, ops.as_int_term(args[0].attrs["n"]) >= 1,
+                                 detail="precondition of _get_outputs/_start: the pre_dispatch slice handed to the calling thread holds at least one task, "
+                                        "else nothing is ever dispatched and the call silently returns no result")
             interp.ctx.events.append((tag,) + tuple(args))
             return Opaque("genobj", None, kind=tag)
         return h
@@ -282,7 +290,12 @@ def build():
     p.models["weakref.ref"] = lambda i, a, k: Opaque("weakref", None)
     p.models["iterable.__iter__"] = lambda i, r, a, k: Opaque("taskiter", None, of=r)
     p.models["len:iterable"] = lambda i, v: INT.fresh(i.ctx, "ntasks")
-    p.models["itertools.islice"] = lambda i, a, k: Opaque("limited", None, of=a[0], n=a[1])
+    def m_islice(interp, args, kwargs):
+        if interp.ctx.branch(ops.as_int_term(args[1]) < 0, "islice:negative-stop"):
+            interp.raise_("ValueError")  # CPython: "Stop argument for islice() must be None or an integer: 0 <= x <= sys.maxsize"
+        return Opaque("limited", None, of=args[0], n=args[1])
+
+    p.models["itertools.islice"] = m_islice
 
     def eval_expr(interp, args, kwargs):
         interp.ctx.events.append(("eval_expr", args[0]))
@@ -311,7 +324,7 @@ def build():
             "generator_is_primed_once": "n_events('next') == 1",
             "list_or_generator_as_requested": "is_tag(result, 'genobj') == self.return_generator",
         },
-        exsures={"RuntimeError": {"no_worker": "NJOBS == 0"}},
+        exsures={"RuntimeError": {"no_worker": "NJOBS == 0"}, "ValueError": {"negative_pre_dispatch": "NJOBS != 1 and self.pre_dispatch != 'all'"}},
     ))
     # ------------------------------------------------------------------ _get_sequential_output (n_jobs == 1: calling thread, in order, once each)
     def seq_tasks(interp):
